@@ -30,7 +30,6 @@ DOMS = ["comb", "a", "b"]
 FORMS = ["slice", "part", "part0", "cat", "arr", "cast"]
 RANGES = [(lo, hi) for lo in range(4) for hi in range(lo + 1, 5)]
 S2 = "S2-early-conflict-part-overapprox"
-F_ASSERT = "C06-cycle-via-sibling-output-assertionerror"
 F_ZERO = "C06-zero-width-driver-vs-input-port"
 
 
@@ -735,9 +734,6 @@ def known_finding(c, obs, model):
             if obs[0] == 0 and c.get("tag") == "zero-width":
                 return F_ZERO
         return None
-    # cycles: the faithful DFS model reproduces the AssertionError; only the ground-truth flag differs
-    if obs[:-1] == model[:-1] and obs[0] == 2 and obs[-1] == 0 and model[-1] == 1:
-        return F_ASSERT
     return None
 
 
